@@ -392,13 +392,19 @@ func VHarness_C13_Update() {
 // Update with both replica ids symbolic at once (the two leading uvarints).
 //vcheck: reach=done workers=16
 func VHarness_C13_UpdateIDs() {
+	// the sections of the record are sized independently (a section that is
+	// empty is left out): the presets of the state, the snapshot and the entry
+	// are chosen independently, so e.g. a snapshot-only update with an empty
+	// state (what SaveSnapshots writes) is covered
 	s := &vSweep{which: -1, preset: vChoose("preset", 3)}
+	ss := &vSweep{which: -1, preset: vChoose("snapshotPreset", 3)}
+	se := &vSweep{which: -1, preset: vChoose("entryPreset", 3)}
 	u := Update{ShardID: vU64("shard"), ReplicaID: vU64("replica"), State: State{Term: s.u64("term"), Vote: s.u64("vote"), Commit: s.u64("commit")}}
 	if vBool("withSnapshot") {
-		u.Snapshot = vSnapshot(s)
+		u.Snapshot = vSnapshot(ss)
 	}
 	if vBool("withEntry") {
-		u.EntriesToSave = []Entry{vSweepEntry(s)}
+		u.EntriesToSave = []Entry{vSweepEntry(se)}
 	}
 	lim := u.SizeUpperLimit()
 	buf := make([]byte, lim)
